@@ -102,7 +102,10 @@ Proof.
     destruct Hin as [<-|[]]. simpl. split; [right; auto|right; eexists; auto].
   - destruct Hin as [<-|[]]. simpl. split; [right; auto|right; eexists; auto].
   - (* duplicate definition *)
-    destruct Hin as [<-|[]]. simpl. split; [left; exists def; simpl; auto|right; eexists; auto].
+    destruct Hin as [<-|Hin]; simpl.
+    + split; [left; exists def; simpl; auto|right; eexists; auto].
+    + destruct first as [[ff params]|]; simpl in Hin; [|contradiction].
+      destruct Hin as [<-|[]]. simpl. split; [left; exists params; simpl; auto|right; eexists; auto].
 Qed.
 
 (* labels_from_nodes: every label range of every modelled constructor is the
@@ -207,6 +210,66 @@ Proof.
   intros c ls l G H Hin. destruct (labels_from_nodes c ls l H Hin) as [_ [Ho|G']]; [exact Ho|congruence].
 Qed.
 
+(* Range and file id of a label come from ONE node.  The constructors of the
+   analysis passes read both from the same meta, except the secondary labels of
+   UnconstrainedLessThan / UnderConstrainedSignal, which take the range of
+   another node of the same definition with the file id of the primary node
+   ([WithFileOf]).  So: if the nodes a constructor call is handed that have a
+   file all have the same file ([one_file]: they are nodes of one definition
+   body - evaluated by the engine on the labels of every report), the file id
+   of a label is the file id of the very node whose range it carries, unless
+   that node has no file. *)
+Definition one_file (c : constructor) : Prop :=
+  forall m m' f f', In m (nodes_of c) -> In m' (nodes_of c) ->
+    m_file m = Some f -> m_file m' = Some f' -> f = f'.
+
+Lemma sources_same_node : forall c s,
+  guarded_constructor c = true -> In s (sources_of c) ->
+  exists m, In m (nodes_of c) /\ source_range s = (m_start m, m_end m) /\
+            (source_file s = m_file m \/ exists o, In o (nodes_of c) /\ source_file s = m_file o).
+Proof.
+  intros c s G Hin.
+  destruct c; simpl in G; try discriminate; simpl in Hin;
+    try (destruct Hin as [<-|[]]; simpl; eexists; split; [left; reflexivity|split; [reflexivity|left; reflexivity]]);
+    try contradiction.
+  - destruct Hin as [<-|Hin]; simpl.
+    + exists assignment. simpl. auto.
+    + apply in_map_iff in Hin as (m & <- & Hm). simpl. exists m. simpl. auto.
+  - destruct Hin as [<-|Hin]; simpl.
+    + exists value. simpl. auto.
+    + apply in_map_iff in Hin as (m & <- & Hm). simpl. exists m. simpl.
+      split; [auto|]. split; [reflexivity|]. right. exists value. simpl. auto.
+  - destruct Hin as [<-|Hin]; simpl.
+    + exists decl. simpl. auto.
+    + destruct constraint as [k|]; simpl in Hin; [|contradiction].
+      destruct Hin as [<-|[]]. simpl. exists k. simpl.
+      split; [auto|]. split; [reflexivity|]. right. exists decl. simpl. auto.
+  - destruct Hin as [<-|[<-|[]]]; simpl; [exists decl|exists shadowed]; simpl; auto.
+Qed.
+
+Theorem label_range_and_file_of_one_node : forall c ls l,
+  guarded_constructor c = true -> one_file c ->
+  labels_of (sources_of c) = Ok ls -> In l ls ->
+  exists m, In m (nodes_of c) /\ l_start l = m_start m /\ l_end l = m_end m /\
+            (m_file m = Some (l_file l) \/ m_file m = None).
+Proof.
+  intros c ls l G One H Hin.
+  destruct (labels_from_sources _ _ _ H Hin) as (s & Hs & Hr & Hf & _).
+  destruct (sources_same_node c s G Hs) as (m & Hm & Er & Ef).
+  exists m. rewrite Er in Hr. inversion Hr. split; [exact Hm|]. split; [reflexivity|]. split; [reflexivity|].
+  destruct Ef as [Ef|(o & Ho & Ef)].
+  - left. rewrite <- Ef. exact Hf.
+  - destruct (m_file m) as [f'|] eqn:Em; [|right; reflexivity].
+    left. f_equal. rewrite Hf in Ef. symmetry in Ef. exact (One m o f' (l_file l) Hm Ho Em Ef).
+Qed.
+
+(* T2008 in the model: the later definition (whole range, file being merged) and the parameter list
+   of the first definition of the name (the file THAT definition was merged from), both primary *)
+Lemma duplicate_definition_labels : forall f d f1 p,
+  labels_of (sources_of (CDuplicateDefinition f d (Some (f1, p)))) =
+  Ok [mk true f (m_start d) (m_end d); mk true f1 (m_start p) (m_end p)].
+Proof. reflexivity. Qed.
+
 (* the only constructors that can panic while building their labels are the two
    that unwrap the file id (TAC01 / TAC02 reports), and only on a file-less meta *)
 Lemma labels_of_total : forall ss,
@@ -251,6 +314,8 @@ Proof.
       * exfalso. apply (H [mk true n (m_start m) (m_end m)]). simpl. rewrite E. reflexivity.
       * exists m. auto.
     + exfalso. apply (H []). reflexivity.
+  - (* duplicate definition: one or two `Known` labels, never a panic *)
+    exfalso. destruct first as [[ff pp]|]; eapply H; simpl; reflexivity.
 Qed.
 
 (* ------------------------------------------------------------------------ *)
@@ -261,7 +326,7 @@ Definition range_allowed (r : range_src) : bool :=
   match r with LMadeUp => false | _ => true end.
 
 Definition file_shape_of (f : file_src) : file_shape :=
-  match f with LFileGuarded => GGuarded | LFileKnown => GKnown | LFileUnwrapped => GUnwrapped end.
+  match f with LFileGuarded => GGuarded | LFileKnown | LFileStored => GKnown | LFileUnwrapped => GUnwrapped end.
 
 Definition style_primary (s : style) : bool := match s with Primary => true | Secondary => false end.
 
@@ -367,7 +432,7 @@ Definition name_of (c : constructor) : list (string * string) :=
   | CTupleError _ => [("src/errors", "TupleError")]
   | CUnclosedComment _ _ => [("src/errors", "UnclosedCommentError")]
   | CParsingError _ _ _ => [("src/errors", "ParsingError")]
-  | CDuplicateDefinition _ _ => [("program_library/program_merger", "Merger")]
+  | CDuplicateDefinition _ _ _ => [("program_library/program_merger", "Merger")]
   end.
 Local Close Scope string_scope.
 
@@ -394,6 +459,7 @@ Proof.
            | H : _ \/ _ |- _ => destruct H as [<-|H]
            | H : In _ (map _ _) |- _ => apply in_map_iff in H as (? & <- & _)
            | H : In _ (match ?x with Some _ => _ | None => _ end) |- _ => destruct x; simpl in H
+           | H : In _ (let (_, _) := ?x in _) |- _ => destruct x; simpl in H
            | H : False |- _ => contradiction
            end;
     try reflexivity.
